@@ -112,6 +112,7 @@ func (rule *RuleExpression) VisitWorkflowPre(n *Workflow) error {
 				//       type: string
 				//       default: ${{ inputs.recursive }}
 				ts := rule.checkString(i.Default, "on.workflow_call.inputs.<inputs_id>.default")
+				rule.checkBool(i.Required, "")
 
 				var ty ExprType
 				switch i.Type {
@@ -151,6 +152,7 @@ func (rule *RuleExpression) VisitWorkflowPre(n *Workflow) error {
 				for id, s := range e.Secrets {
 					sty.Props[id] = StringType{}
 					rule.checkString(s.Description, "")
+					rule.checkBool(s.Required, "")
 				}
 				rule.secretsTy = sty
 			}
